@@ -37,9 +37,9 @@ struct Kind {
 
 // ================================================================= Clipper64
 namespace k64 {
-enum { ADD_A, ADD_B, ADD_C, ADD_O, ADD_R, OTHER_USES_R, PC_F, PC_T, RS_T, RS_F, EX_INT_NZ, EX_XOR_EO, EX_TREE_UNION_POS, CLEAR, NOPS };
+enum { ADD_A, ADD_B, ADD_C, ADD_O, ADD_R, OTHER_USES_R, PC_F, PC_T, RS_T, RS_F, EX_INT_NZ, EX_XOR_EO, EX_TREE_UNION_POS, EX_TREE_NOCLIP, CLEAR, NOPS };
 static const char* names[] = {"AddSubject(A)", "AddSubject(B)", "AddClip(C)", "AddOpenSubject(O)", "AddReuseableData(R)", "OtherClipperUses(R)", "PreserveCollinear(false)", "PreserveCollinear(true)",
-                              "ReverseSolution(true)", "ReverseSolution(false)", "Execute(Intersection,NonZero)->paths", "Execute(Xor,EvenOdd)->paths", "Execute(Union,Positive)->tree", "Clear()"};
+                              "ReverseSolution(true)", "ReverseSolution(false)", "Execute(Intersection,NonZero)->paths", "Execute(Xor,EvenOdd)->paths", "Execute(Union,Positive)->tree", "Execute(NoClip,NonZero)->tree", "Clear()"};
 static CL::Paths64 A{mk({10, 10, 60, 12, 55, 62, 8, 58})}, B{mk({30, 30, 90, 35, 85, 80, 28, 85}), mk({40, 40, 42, 70, 70, 72, 72, 42})}, C{mk({40, 5, 75, 45, 35, 95, 5, 50}), mk({20, 50, 40, 30, 60, 50, 40, 50})},
     O{mk({0, 40, 100, 45, 50, 100}), mk({15, 5, 15, 95})};
 static CL::ReuseableDataContainer64& R() {
@@ -49,6 +49,9 @@ static CL::ReuseableDataContainer64& R() {
 }
 static std::string run(const std::vector<int>& h) {
   CL::Clipper64 c; std::string out;
+  // the caller's output containers live as long as the object and are handed to every Execute again (a result must not
+  // depend on what an earlier Execute left in them either)
+  CL::Paths64 s, o; CL::PolyTree64 t;
   for (size_t i = 0; i < h.size(); ++i) {
     out.clear();
     switch (h[i]) {
@@ -56,9 +59,10 @@ static std::string run(const std::vector<int>& h) {
       case ADD_R: c.AddReuseableData(R()); break;
       case OTHER_USES_R: { CL::Clipper64 c2; c2.AddReuseableData(R()); CL::Paths64 s; c2.Execute(CL::ClipType::Union, CL::FillRule::NonZero, s); break; }
       case PC_F: c.PreserveCollinear(false); break; case PC_T: c.PreserveCollinear(true); break; case RS_T: c.ReverseSolution(true); break; case RS_F: c.ReverseSolution(false); break;
-      case EX_INT_NZ: { CL::Paths64 s, o; bool ok = c.Execute(CL::ClipType::Intersection, CL::FillRule::NonZero, s, o); out = ok ? "T" : "F"; ser(out, s); ser(out, o); break; }
-      case EX_XOR_EO: { CL::Paths64 s, o; bool ok = c.Execute(CL::ClipType::Xor, CL::FillRule::EvenOdd, s, o); out = ok ? "T" : "F"; ser(out, s); ser(out, o); break; }
-      case EX_TREE_UNION_POS: { CL::PolyTree64 t; CL::Paths64 o; bool ok = c.Execute(CL::ClipType::Union, CL::FillRule::Positive, t, o); out = ok ? "T" : "F"; ser(out, t); ser(out, o); break; }
+      case EX_INT_NZ: { bool ok = c.Execute(CL::ClipType::Intersection, CL::FillRule::NonZero, s, o); out = ok ? "T" : "F"; ser(out, s); ser(out, o); break; }
+      case EX_XOR_EO: { bool ok = c.Execute(CL::ClipType::Xor, CL::FillRule::EvenOdd, s, o); out = ok ? "T" : "F"; ser(out, s); ser(out, o); break; }
+      case EX_TREE_UNION_POS: { bool ok = c.Execute(CL::ClipType::Union, CL::FillRule::Positive, t, o); out = ok ? "T" : "F"; ser(out, t); ser(out, o); break; }
+      case EX_TREE_NOCLIP: { bool ok = c.Execute(CL::ClipType::NoClip, CL::FillRule::NonZero, t, o); out = ok ? "T" : "F"; ser(out, t); ser(out, o); break; }
       case CLEAR: c.Clear(); break;
     }
   }
@@ -82,20 +86,22 @@ static bool enabled(const std::vector<int>& prefix, int op) {
 
 // ================================================================= ClipperD
 namespace kD {
-enum { ADD_A, ADD_C, ADD_O, PC_F, RS_T, RS_F, EX_INT_NZ, EX_TREE_UNION_EO, EX_DIFF_POS, CLEAR, NOPS };
+enum { ADD_A, ADD_C, ADD_O, PC_F, RS_T, RS_F, EX_INT_NZ, EX_TREE_UNION_EO, EX_DIFF_POS, EX_NOCLIP, CLEAR, NOPS };
 static const char* names[] = {"AddSubject(A)", "AddClip(C)", "AddOpenSubject(O)", "PreserveCollinear(false)", "ReverseSolution(true)", "ReverseSolution(false)", "Execute(Intersection,NonZero)->pathsD", "Execute(Union,EvenOdd)->treeD",
-                              "Execute(Difference,Positive)->pathsD", "Clear()"};
+                              "Execute(Difference,Positive)->pathsD", "Execute(NoClip,EvenOdd)->pathsD", "Clear()"};
 static CL::PathsD A{mkd({1.0, 1.0, 6.05, 1.2, 5.5, 6.25, 0.8, 5.8})}, C{mkd({4.0, 0.5, 7.5, 4.5, 3.5, 9.5, 0.5, 5.0}), mkd({2.0, 5.0, 4.0, 3.0, 6.0, 5.0, 4.0, 5.0})}, O{mkd({0, 4.0, 10.0, 4.5, 5.0, 10.0})};
 static std::string run(const std::vector<int>& h) {
   CL::ClipperD c(2); std::string out;
+  CL::PathsD s, o; CL::PolyTreeD t;   // output containers reused by every Execute of the history
   for (size_t i = 0; i < h.size(); ++i) {
     out.clear();
     switch (h[i]) {
       case ADD_A: c.AddSubject(A); break; case ADD_C: c.AddClip(C); break; case ADD_O: c.AddOpenSubject(O); break;
       case PC_F: c.PreserveCollinear(false); break; case RS_T: c.ReverseSolution(true); break; case RS_F: c.ReverseSolution(false); break;
-      case EX_INT_NZ: { CL::PathsD s, o; bool ok = c.Execute(CL::ClipType::Intersection, CL::FillRule::NonZero, s, o); out = ok ? "T" : "F"; ser(out, s); ser(out, o); break; }
-      case EX_DIFF_POS: { CL::PathsD s, o; bool ok = c.Execute(CL::ClipType::Difference, CL::FillRule::Positive, s, o); out = ok ? "T" : "F"; ser(out, s); ser(out, o); break; }
-      case EX_TREE_UNION_EO: { CL::PolyTreeD t; CL::PathsD o; bool ok = c.Execute(CL::ClipType::Union, CL::FillRule::EvenOdd, t, o); out = ok ? "T" : "F"; ser(out, t); ser(out, o); break; }
+      case EX_INT_NZ: { bool ok = c.Execute(CL::ClipType::Intersection, CL::FillRule::NonZero, s, o); out = ok ? "T" : "F"; ser(out, s); ser(out, o); break; }
+      case EX_DIFF_POS: { bool ok = c.Execute(CL::ClipType::Difference, CL::FillRule::Positive, s, o); out = ok ? "T" : "F"; ser(out, s); ser(out, o); break; }
+      case EX_NOCLIP: { bool ok = c.Execute(CL::ClipType::NoClip, CL::FillRule::EvenOdd, s, o); out = ok ? "T" : "F"; ser(out, s); ser(out, o); break; }
+      case EX_TREE_UNION_EO: { bool ok = c.Execute(CL::ClipType::Union, CL::FillRule::EvenOdd, t, o); out = ok ? "T" : "F"; ser(out, t); ser(out, o); break; }
       case CLEAR: c.Clear(); break;
     }
   }
@@ -119,6 +125,7 @@ static CL::Paths64 GE{CL::Path64(), CL::Path64()};
 static CL::Path64 P = mk({2000, 0, 2100, 10, 2050, 90});
 static std::string run(const std::vector<int>& h) {
   CL::ClipperOffset c; std::string out;
+  CL::Paths64 s; CL::PolyTree64 t;   // output containers reused by every Execute of the history
   for (size_t i = 0; i < h.size(); ++i) {
     out.clear();
     switch (h[i]) {
@@ -127,10 +134,10 @@ static std::string run(const std::vector<int>& h) {
       case ADD_EMPTY: c.AddPaths(GE, CL::JoinType::Miter, CL::EndType::Polygon); break;
       case ADD_P: c.AddPath(P, CL::JoinType::Square, CL::EndType::Butt); break;
       case ML_3: c.MiterLimit(3.0); break; case ARC_1: c.ArcTolerance(1.0); break; case RS_T: c.ReverseSolution(true); break;
-      case EX_P10: { CL::Paths64 s; c.Execute(10.0, s); ser(out, s); break; }
-      case EX_M10: { CL::Paths64 s; c.Execute(-10.0, s); ser(out, s); break; }
-      case EX_TREE_P5: { CL::PolyTree64 t; c.Execute(5.0, t); ser(out, t); break; }
-      case EX_CB7: { CL::Paths64 s; c.Execute([](const CL::Path64&, const CL::PathD&, size_t, size_t) { return 7.0; }, s); ser(out, s); break; }
+      case EX_P10: { c.Execute(10.0, s); ser(out, s); break; }
+      case EX_M10: { c.Execute(-10.0, s); ser(out, s); break; }
+      case EX_TREE_P5: { c.Execute(5.0, t); ser(out, t); break; }
+      case EX_CB7: { c.Execute([](const CL::Path64&, const CL::PathD&, size_t, size_t) { return 7.0; }, s); ser(out, s); break; }
       case CLEAR: c.Clear(); break;
     }
   }
@@ -298,9 +305,9 @@ int main(int argc, char** argv) {
   Args a = parse_args(argc, argv);
   Reporter rep(a); install_crash_handler(rep);
   std::vector<Kind> kinds(5);
-  kinds[0].name = "Clipper64"; for (int i = 0; i < k64::NOPS; ++i) { kinds[0].ops.push_back(k64::names[i]); kinds[0].is_exec.push_back(i == k64::EX_INT_NZ || i == k64::EX_XOR_EO || i == k64::EX_TREE_UNION_POS); }
+  kinds[0].name = "Clipper64"; for (int i = 0; i < k64::NOPS; ++i) { kinds[0].ops.push_back(k64::names[i]); kinds[0].is_exec.push_back(i == k64::EX_INT_NZ || i == k64::EX_XOR_EO || i == k64::EX_TREE_UNION_POS || i == k64::EX_TREE_NOCLIP); }
   kinds[0].run = k64::run; kinds[0].reduce = k64::reduce; kinds[0].enabled = k64::enabled;
-  kinds[1].name = "ClipperD"; for (int i = 0; i < kD::NOPS; ++i) { kinds[1].ops.push_back(kD::names[i]); kinds[1].is_exec.push_back(i == kD::EX_INT_NZ || i == kD::EX_TREE_UNION_EO || i == kD::EX_DIFF_POS); }
+  kinds[1].name = "ClipperD"; for (int i = 0; i < kD::NOPS; ++i) { kinds[1].ops.push_back(kD::names[i]); kinds[1].is_exec.push_back(i == kD::EX_INT_NZ || i == kD::EX_TREE_UNION_EO || i == kD::EX_DIFF_POS || i == kD::EX_NOCLIP); }
   kinds[1].run = kD::run; kinds[1].reduce = kD::reduce;
   kinds[2].name = "ClipperOffset"; for (int i = 0; i < kO::NOPS; ++i) { kinds[2].ops.push_back(kO::names[i]); kinds[2].is_exec.push_back(i == kO::EX_P10 || i == kO::EX_M10 || i == kO::EX_TREE_P5 || i == kO::EX_CB7); }
   kinds[2].run = kO::run; kinds[2].reduce = kO::reduce;
